@@ -181,7 +181,8 @@ def offsets(db, ctx):
     for n, _ in walk(sp.hir):
         if n.get("k") == "Struct" and (n.get("path") or "").endswith("NodeSplitIterator"):
             init = {x["name"]: render(peel_casts(x["e"])) for x in n["fields"]}
-    want = {"byte_offset": "self.begin_bytes", "byte_end": "self.end_bytes", "char_offset": "self.begin()", "char_end": "self.end()"}
+    # `subset` must be handed on unchanged: the units' head_word_length is parsed only if the fields up to it are requested
+    want = {"byte_offset": "self.begin_bytes", "byte_end": "self.end_bytes", "char_offset": "self.begin()", "char_end": "self.end()", "subset": "subset"}
     ok = init is not None and all(init.get(k) == v for k, v in want.items()) and init.get("index") == "0"
     ctx.ob("split|iterator-init", ok, "NodeSplitIterator is initialised with %s (must be %s, index 0)" % ({k: (init or {}).get(k) for k in list(want) + ["index"]}, want), fn=sp)
     fs = [f for f in db.impls_of("Iterator::next") if "NodeSplitIterator" in f.key]
@@ -313,6 +314,24 @@ def shared_input(db, ctx):
     ctx.ob("split-args", ok2, "node.split(%s)" % (", ".join(render(a) for a in call_args(spc[0])[1:]) if spc else None), fn=f)
     node_src = bool(spc) and "self.node(index)" in render(call_args(spc[0])[0], x=True)
     ctx.ob("node=self.node(index)", node_src, "the split node is self.node(index): %s" % node_src, fn=f)
+    # assign_input itself: afterwards the list shares the OTHER list's input whenever the two differed
+    ai = db.view(db.one("assign_input", "MorphemeList"))
+    from ..inline import nf as _nf2
+    asg = [n for n, _ in walk(ai.hir) if n.get("k") == "Assign" and _nf2(n["l"]) == "self.input" and "other.input" in _nf2(n["r"])]
+
+    def ev_same(same):
+        def ev(atom):
+            a = peel(atom)
+            c = cmp_atom(a)
+            if c and c[0] in ("Eq", "Ne") and all(".as_ptr()" in _nf2(x) or "Rc::as_ptr" in _nf2(x) for x in (c[1], c[2])):
+                return same if c[0] == "Eq" else (not same)
+            if is_call(a) and (callee(a) or "").endswith("ptr_eq"):
+                return same
+            return None
+        return ev
+    ok_ai = len(asg) == 1 and holds_at(path_conditions(asg[0]["id"], ai.hir) or [], ev_same(False)) is True
+    ctx.ob("assign_input|adopts-the-other-input", ok_ai,
+           "assign_input stores other.input into self.input whenever the two lists do not already share it: %s" % ok_ai, fn=ai)
 
 
 @rule("C09.fixups", "split references of user-dictionary words are re-stamped under the flag of the list they belong to (re-evaluation of "
@@ -321,3 +340,9 @@ def fixups(db, ctx):
     from . import C11
     C11.fixups(db, ctx)
     ctx.floor(4)
+
+
+@rule("C09.unit-length", "the stored head-word length that places every inner A/B unit boundary is the byte length of the unit's index key (re-evaluation of C05.field-source)")
+def field_source_reeval(db, ctx):
+    from . import C05
+    C05.field_source(db, ctx)
